@@ -3,6 +3,7 @@
 From V Require Import Common.Base C01.Utf C01.Quote C01.SpecLiteral C01.QuoteProofs.
 From V Require Import C01.Num C01.SpecNumeric C01.NumProofs C01.NumProofs2 C01.ScriptProofs.
 From V Require Import C13.Token C13.ParseSpec C01.CommaTrace.
+From V Require Import gen.IdTablesGen C01.Keys C01.KeysProofs.
 
 (* printQuotedUTF16: for EVERY sequence of UTF-16 code units (lone surrogates
    included), every configuration (charset, unicode-escape support,
@@ -127,10 +128,17 @@ Print Assumptions print_number_literal_value.
 (* ---- expressions: the C01 side of C13's print_parse_roundtrip ---- *)
 
 (* C13 proves that printing then parsing a tree gives back [norm tree] (comma
-   re-nesting).  [norm] preserves behaviour: in EVERY compositional semantics
-   of the tree type in which `l , r` is "evaluate l, GetValue, evaluate r,
-   GetValue" (ECMA-262 13.16.1) and GetValue is idempotent, a tree and its
-   normal form have the same meaning (value, final state, failure). *)
+   re-nesting).  On the fragment norm acts on (identifiers, literals, member /
+   index access, unary, binary, assignment, comma, conditional: [cexpr], embedded
+   into C13's tree type by [embed]) C13's norm is [cnorm] ... *)
+Theorem c13_norm_on_fragment : forall e, norm (embed e) = embed (cnorm e).
+Proof. exact norm_embed_all. Qed.
+Print Assumptions c13_norm_on_fragment.
+
+(* ... and [cnorm] preserves behaviour: in EVERY compositional semantics in
+   which `l , r` is "evaluate l, GetValue, evaluate r, GetValue" (ECMA-262
+   13.16.1) and GetValue is idempotent, a tree and its normal form have the
+   same meaning (value, final state, failure). *)
 Theorem norm_preserves_meaning :
   forall (S V : Type) m_id m_num m_re m_dot m_un m_bin m_cond m_index,
   (forall f f' s, den_eq S V f f' -> den_eq S V (m_dot f s) (m_dot f' s)) ->
@@ -141,8 +149,9 @@ Theorem norm_preserves_meaning :
   (forall f f' g g', den_eq S V f f' -> den_eq S V g g' -> den_eq S V (m_index f g) (m_index f' g')) ->
   forall getvalue : V -> S -> option (V * S),
   (forall v s w s', getvalue v s = Some (w, s') -> getvalue w s' = Some (w, s')) ->
-  forall e, den_eq S V (meaning S V m_id m_num m_re m_dot m_un m_bin m_cond m_index getvalue (norm e))
-                       (meaning S V m_id m_num m_re m_dot m_un m_bin m_cond m_index getvalue e).
+  forall e,
+    den_eq S V (meaning S V m_id m_num m_re m_dot m_un m_bin m_cond m_index getvalue (cnorm e))
+               (meaning S V m_id m_num m_re m_dot m_un m_bin m_cond m_index getvalue e).
 Proof. exact norm_meaning_all. Qed.
 Print Assumptions norm_preserves_meaning.
 
@@ -151,6 +160,26 @@ Print Assumptions norm_preserves_meaning.
    and logical assignment, short-circuit && || ??, conditional, ++/--,
    arithmetic with failing division: for every tree and every initial state,
    the same value, the same final store and the same event trace (or both fail) *)
-Theorem norm_preserves_trace : forall e s, trace_eval (norm e) s = trace_eval e s.
+Theorem norm_preserves_trace : forall e s, trace_eval (cnorm e) s = trace_eval e s.
 Proof. exact norm_trace_all. Qed.
 Print Assumptions norm_preserves_trace.
+
+(* ---- property keys ---- *)
+
+(* the identifier tables REGENERATED from internal/js_ast/unicode.go on this
+   run contain no surrogate code point and stay within 0..U+10FFFF (this is
+   what makes "esbuild calls it an identifier" imply well-formed UTF-16) *)
+Theorem id_tables_well_formed :
+  table_ok id_start_es5_and_esnext = true /\ table_ok id_continue_es5_and_esnext = true.
+Proof. exact (conj id_start_table_ok id_continue_table_ok). Qed.
+Print Assumptions id_tables_well_formed.
+
+(* printProperty with a string key, for EVERY UTF-16 key string, every
+   configuration and either value of PreferQuotedKey: the printer never reaches
+   the "Cannot encode identifier" panic, and the text it prints for the key -
+   an IdentifierName (`{a: 1}`, `{\u00E9: 1}`, `{\u{20BB7}: 1}`) or a string
+   literal (`{"a b": 1}`) - denotes exactly the same property key. *)
+Theorem string_key_identity : forall cfg prefer_quoted key,
+  all_u16 key -> exists out, print_string_key cfg prefer_quoted key = Some out /\ key_value out = Some key.
+Proof. exact string_key_identity_all. Qed.
+Print Assumptions string_key_identity.
